@@ -28,7 +28,8 @@ BRANCHES = [
     "chb.call.living:command_giver=ob", "chb.call.not-living:command_giver=0", "chb.call.eval_cost-was-full",
     "chb.call.eval_cost-reset-after-use", "chb.timer_flags-without-HEARTBEAT:empty",
     "chb.timer_flags-without-HEARTBEAT:list-kept", "backend.start-up-call", "backend.further-passes-after-error",
-    "backend.tick-served-right-after-an-abandoned-round", "backend.pass-limit",
+    "backend.tick-served-right-after-an-abandoned-round", "backend.pass-limit", "cotick",
+    "call_out.dispatch-after-the-round", "call_out.error-after-a-round-with-beats",
 ]
 
 
@@ -74,6 +75,13 @@ class C11(Prop):
         "NV.C11.sim_tickCore",
         "NV.C11.sim_applyRp",
         "NV.C11.sim_morePasses",
+        "NV.C11.sim_tickRound",
+        "NV.C11.sim_coStep",
+        "NV.C11.sim_coLoop",
+        "NV.C11.sim_coDispatch",
+        "NV.C11.gen_chbTail_eq",
+        "NV.C11.error_outside_heart_beat_switches_off_nobody",
+        "NV.C11.oracle_error_outside_heart_beat",
         "NV.C11.sim_hookStep",
         "NV.C11.roundRef_cg",
         "NV.C11.tick_cg_none",
@@ -140,7 +148,7 @@ class C11(Prop):
         "NV.C11.clamp_witness_int",
     ]
     consts = [("shrtMax", "SHRT_MAX"), ("heartBeatChunk", "HEART_BEAT_CHUNK"),
-              ("timerFlagHeartbeat", "TIMER_FLAG_HEARTBEAT")]
+              ("timerFlagHeartbeat", "TIMER_FLAG_HEARTBEAT"), ("timerFlagCallout", "TIMER_FLAG_CALLOUT")]
     const_headers = ["lib/efuns/options.h", "src/main.h"]
     quick_n = 400
     thorough_n = 8000
@@ -152,7 +160,8 @@ class C11(Prop):
                  "destruct_object / reload_object / clone_object into Lean definitions the model uses, bridging lemmas as "
                  "obligations) + model/implementation correspondence")
     level_text = ("Lean 4 theorems about an executable model of one pass of the backend() loop (start-up call, "
-                  "remove_destructed_objects / replace_programs, call_heart_beat, further passes after an error), set_heart_beat / "
+                  "remove_destructed_objects / replace_programs, call_heart_beat incl. the call_out dispatch behind the round, further "
+                  "passes after an error), set_heart_beat / "
                   "query_heart_beat / error_handler (restrict_destruct reset, catch branch, switch-off) / destruct_object "
                   "(inventory hooks incl. errors, self-destructing and departing items, restrict_destruct) / clone_object / "
                   "reload_object / replace_program for all populations, heart_beat scripts, timer_flags and tick counts; the "
@@ -181,7 +190,7 @@ class C11(Prop):
                    "perc_hb_probes / num_hb_calls statistics, heart_beat_status()",
                    "truncation of a round by the real timer thread is an explicit scripted operation (the thread is C19)",
                    "current_interactive; user commands / I/O in the same pass of the backend loop (C09, C12)",
-                   "timer_flags bits RESET / CALLOUT run look_for_objects_to_swap / call_out in the harness but nothing is pending there (C10 covers call_out)",
+                   "reset()/clean_up() applied by look_for_objects_to_swap inside call_heart_beat (position tied, no failing ones scripted: C05); the call_out wheel timing (C10) - every call_out here is due at the next dispatch",
                    "nested inventories (items carrying items); 'errR only inside a hook' is not an oracle clause (a left-over restrict_destruct is observed directly by the harness instead)",
                    "wrap of the short countdown of an object without heart_beat function (needs 32769 ticks, not observable: such an object is never called)",
                    "errors in the master's error handler (in_error re-entry)"]
@@ -195,7 +204,7 @@ class C11(Prop):
 
     def prepare(self, ctx):
         self.exe = E.compile_harness("c11", [os.path.join(E.VERIF, "harness/c11/c11.c")],
-                                     extra=("-Wl,--wrap=do_comm_polling", "-Wl,--wrap=remove_destructed_objects"))
+                                     extra=("-Wl,--wrap=do_comm_polling", "-Wl,--wrap=remove_destructed_objects", "-Wl,--wrap=call_out"))
         self.conf = E.make_mudlib(ctx.rundir)
 
     def run_impl(self, ctx, cases):
@@ -389,6 +398,19 @@ class C11(Prop):
         mk("pass-limit-not-reached", chain + ["script o%d hb:0 flag;err" % i for i in range(2, 7)] + ["tick", "do o0 hbs", "tick"])
         mk("command-giver-after-rounds", pop3 + ["do o4 living", "tick", "script o4 hb:1 err", "tick", "do o2 living", "do o0 shb,o4,1",
                                                 "script o4 hb:2 flag", "tick", "tick"])
+        # --- call_out callbacks dispatched by call_heart_beat AFTER the round (current_heart_beat is 0 by then): an uncaught
+        #     error in a callback switches off nobody - also when heart beats ran in the same tick (seeded change C11-6)
+        mk("callout-error-after-round-with-beats", pop3 + ["do o0 clone,o5,0,0", "cotick o5:err", "do o0 hbs", "cotick o5:err",
+                                                            "do o0 hbs", "tick", "do o0 hbs"])
+        mk("callout-error-in-beating-object", pop3 + ["cotick o3:err", "do o0 hbs", "cotick o2:hbs;err o4:err", "do o0 hbs", "tick"])
+        mk("callout-error-after-round-without-beats", ["do o0 clone,o2,0,3", "do o0 clone,o5,0,0", "cotick o5:err", "do o0 hbs",
+                                                       "cotick o5:err", "cotick o5:err", "do o0 hbs", "tick"])
+        mk("callout-touches-heart-beats", pop3 + ["cotick o2:shb,o3,0;shb,o4,2;hbs o3:dest,o3;err", "do o0 hbs", "tick", "tick"])
+        mk("callout-pending-after-abandoned-round", pop3 + ["script o3 hb:0 err", "cotick o2:hbs;err", "do o0 hbs", "tick", "do o0 hbs",
+                                                            "tflags 6", "tick", "do o0 hbs"])
+        mk("callout-served-in-second-pass", pop3 + ["script o3 hb:0 flag;err", "cotick o4:err;hbs o2:hbs", "do o0 hbs", "tick"])
+        mk("callout-with-flags-off-and-dead-object", pop3 + ["tflags 0", "cotick o2:hbs;err o9:hbs", "do o0 dest,o3", "cotick o3:hbs",
+                                                             "tflags 2", "cotick o4:dest,o4;err", "do o0 hbs", "tick"])
         mk("empty", ["tick", "do o0 hbs", "tick"])
         mk("dead-and-unknown", ["do o0 clone,o2,0,1", "do o0 dest,o2", "do o0 dest,o2", "do o0 shb,o2,1", "do o0 q,o9",
                                 "do o2 hbs", "do o9 hbs", "do o0 dest,o0", "do o0 dest,o1", "do o0 clone,o2,0,1", "tick"])
@@ -499,7 +521,19 @@ class C11(Prop):
                 # timer_flags: heart beats switched off / on again globally (bit TIMER_FLAG_HEARTBEAT = 2), with and
                 # without the call_out bit
                 body.append("tflags %d" % rng.weighted([(0, 4), (2, 4), (4, 2), (6, 2)]))
-            if rng.chance(3, 5):
+            if rng.chance(1, 6):
+                # call_out callbacks dispatched after the round of this tick; errors in them are nobody's heart-beat fault
+                cbs = []
+                for _ in range(rng.range(1, 3)):
+                    sub = {"all": ids["all"], "next": ids["next"]}
+                    ops = [o_ for o_ in self.gen_ops(rng, sub, n=rng.range(0, 2)) if not o_.startswith("take")]
+                    ids["next"] = sub["next"]
+                    if rng.chance(1, 2):
+                        ops.append("err")
+                    cbs.append("o%d:%s" % (rng.choice(ids["all"]), ";".join(ops) if ops else "hbs"))
+                body.append("cotick " + " ".join(cbs))
+                body.append("do o0 hbs")
+            elif rng.chance(3, 5):
                 body.append("tick")
                 if rng.chance(1, 8):
                     # after a (possibly aborted) round: re-enable somebody and raise an unrelated top-level error
